@@ -324,7 +324,7 @@ def rule_desc_tokens(ctx: Ctx) -> RuleResult:
     every part: its string parameter is read only as the receiver of `.split(",")`, never by position
     (startswith on the whole string, the first part only)."""
     p = ctx.p
-    rr = RuleResult("SIB", "C17.16", "helpers that search a colour description for a token examine every comma-separated part (the parameter is only read through .split(','))", floor=1)
+    rr = RuleResult("SIB", "C17.16", "helpers that search a colour description for a token examine every comma-separated part; the hN bound of the 88-colour fallback is the number of colours the 88 and 256 palettes share", floor=2)
     reg = p.func("urwid.display.common.BaseScreen.register_palette_entry")
     helpers = [f for f in p.functions.values() if getattr(f, "parent", None) is reg and not f.is_lambda]
     if not helpers:
@@ -340,6 +340,27 @@ def rule_desc_tokens(ctx: Ctx) -> RuleResult:
         rr.inst(short(h), True, {"helper": short(h), "parameter": prm, "reads": len(loads), "reads_other_than_split": len(bad), "parameter_reassigned": bool(stores)})
         if bad or stores or not loads:
             rr.add(finding("SIB", h, (bad or stores or [h.node])[0], f"{h.name}() inspects the description string `{prm}` by position instead of part by part: a colour token that is not the first setting ('bold,h100') is missed, so the 88-colour AttrSpec is built from a description that is only valid for 256 colours and register_palette_entry raises AttrSpecError", construct=f"{h.name}: description not examined part by part"))
+        # the bound of the 'hN' test: colour numbers up to this bound mean the same colour in the 88- and in the
+        # 256-colour palette (folded from the two tables), every larger number does not - for those the 88-colour
+        # form of the entry has to fall back to the basic colours
+        from ..consteval import fold_expr, fold_module_name
+
+        cm = p.modules["urwid.display.common"]
+        t88, t256 = fold_module_name(p, cm, "_COLOR_VALUES_88"), fold_module_name(p, cm, "_COLOR_VALUES_256")
+        same = 0
+        while same < min(len(t88), len(t256)) and t88[same] == t256[same]:
+            same += 1
+        # same = number of leading colour numbers with identical meaning (16)
+        for c in [c for c in h.own_nodes() if isinstance(c, ast.Compare) and len(c.ops) == 1 and isinstance(c.ops[0], (ast.Gt, ast.GtE)) and isinstance(c.left, ast.Call) and callee_name(c.left) == "int"]:
+            try:
+                k = fold_expr(p, cm, c.comparators[0])
+            except AnalysisError:
+                k = None
+            first_large = None if not isinstance(k, int) else (k + 1 if isinstance(c.ops[0], ast.Gt) else k)
+            rr.inst(f"{short(h)}: bound {norm(c, 40)}", True, {"test": norm(c, 60), "first_number_treated_as_large": first_large, "colour_numbers_shared_by_88_and_256": same})
+            basic = len(fold_module_name(p, cm, "_BASIC_COLORS"))
+            if first_large is None or not basic <= first_large <= same:
+                rr.add(finding("SIB", h, c, f"`{norm(c, 60)}` treats colour numbers from {first_large} on as 'not usable at 88 colours', but the 88- and the 256-colour palettes (folded from _COLOR_VALUES_88 / _COLOR_VALUES_256) agree exactly on the numbers 0..{same - 1} (the {basic} basic colours and what follows by coincidence): with a larger bound an entry with h{same}..h{(first_large or same) - 1} is sent to an 88-colour terminal as 38;5;N - another colour than the entry describes; with a bound below {basic} a basic colour number falls back needlessly", construct=f"{h.name}: bound {first_large} outside {basic}..{same}"))
     return rr
 
 
@@ -434,6 +455,8 @@ _CM = "urwid/display/common.py"
 _RW = "urwid/display/_raw_display_base.py"
 _HT = "urwid/display/html_fragment.py"
 MUTANTS = [
+    Mut("large-h-bound-88", _CM, "BaseScreen.register_palette_entry", "int(part[1:], 10) > 15:", "int(part[1:], 10) > 87:", "SIB|display.common.BaseScreen.register_palette_entry.<locals>.large_h|large_h: bound 88"),
+    Mut("twin-large-h-bound-ge-16", _CM, "BaseScreen.register_palette_entry", "int(part[1:], 10) > 15:", "int(part[1:], 10) >= _CUBE_START:", twin=True),
     Mut("pad-segment-recognised-by-truthy-offset", "urwid/canvas.py", "apply_text_layout", "            elif s.offs is not None:", "            elif s.offs:", "SENTINEL|canvas.apply_text_layout"),
     Mut("pad-segment-without-charset-run", "urwid/canvas.py", "apply_text_layout", "                    attrrange(s.offs, s.offs, s.sc)\n                    rle_append_modify(linec, (None, s.sc))\n", "                    attrrange(s.offs, s.offs, s.sc)\n", "PAIR|canvas.apply_text_layout"),
     Mut("initial-rendition-only-on-full-repaint", _RW, "urwid.display._raw_display_base.Screen.draw_screen", "        output: list[str] = [escape.HIDE_CURSOR, attr_to_escape(last_attributes)]\n", "        output: list[str] = [escape.HIDE_CURSOR]\n        if not self.screen_buf:\n            output.append(attr_to_escape(last_attributes))\n", "PAIR|display._raw_display_base.Screen.draw_screen|rendition model"),
